@@ -10,6 +10,11 @@ Families (every case is reproducible from (family, key) — see `build_case`):
              by-reference and ABI parameters, odd names, up to 40 subroutines, nested control flow
   router     seeded random Routers (bare calls + ABI methods), approval and clear-state programs
   consts     many repeated constants with assembleConstants=True (below / at / above 256 block entries)
+  frames     subroutines (plain, ABI void, ABI with output) whose bodies create k ABI locals, k around the 128-cell
+             frame limit (126..129, 200), with 0 / 2 arguments: frame_dig / frame_bury immediates must stay in int8
+  tails      routine-TAIL shapes: a routine (none-typed / value-typed subroutine, main) whose last statement is an
+             If / If-ElseIf-Else / Cond / nested combination in which every subset of the arms leaves
+             (Return / Approve / Reject / Err) and the others do not, with and without a following routine
   names      subroutine names with odd characters (incl. empty after sanitising, `main`, digits, unicode)
 """
 import random
@@ -115,6 +120,18 @@ def catalogue(pt):
         add("Substring:%d:%d" % (s, e), lambda s=s, e=e: pt.Substring(B("abcdef"), I(s), I(e)))
     for s, ln in [(0, 0), (0, 255), (255, 255), (255, 0), (256, 0), (0, 256), (300, 2), (1, 1)]:
         add("Extract:%d:%d" % (s, ln), lambda s=s, ln=ln: pt.Extract(B("abcdef"), I(s), I(ln)))
+    # dense grid around the one-byte boundary: every op selector of substring.py (substring / substring3 / extract / extract3)
+    GRID = [0, 1, 2, 127, 128, 254, 255, 256, 257, 511, 512]
+    seen_rng = set()
+    for s in GRID:
+        for d in GRID:
+            if ("S", s, s + d) not in seen_rng:
+                seen_rng.add(("S", s, s + d))
+                add("SubstringG:%d:%d" % (s, s + d), lambda s=s, d=d: pt.Substring(B("abcdef"), I(s), I(s + d)))
+            add("ExtractG:%d:%d" % (s, d), lambda s=s, d=d: pt.Extract(B("abcdef"), I(s), I(d)))
+    for s in GRID:
+        add("SuffixG:%d" % s, lambda s=s: pt.Suffix(B("abcdef"), I(s)))
+        add("ReplaceG:%d" % s, lambda s=s: pt.Replace(B("abcdef"), I(s), B("z")))
     for s in [0, 1, 255, 256, 70000]:
         add("Suffix:%d" % s, lambda s=s: pt.Suffix(B("abcdef"), I(s)))
         add("Replace:%d" % s, lambda s=s: pt.Replace(B("abcdef"), I(s), B("z")))
@@ -899,3 +916,165 @@ def gen_consts_program(pt, n_int, n_bytes, repeat=2):
     if ba:
         st.append(pt.Pop(pt.Concat(*ba) if len(ba) > 1 else ba[0]))
     return pt.Seq(*st, pt.Approve())
+
+
+FRAME_KINDS = ["plain", "abi_void", "abi_out"]
+FRAME_LOCALS = [126, 127, 128, 129, 200]
+
+
+def frames_cases():
+    """[(kind, k locals, nargs)]"""
+    return [(kd, k, na) for kd in FRAME_KINDS for k in FRAME_LOCALS for na in (0, 2)]
+
+
+def gen_frames_program(pt, kind, k, nargs):
+    """A subroutine whose body creates k ABI locals (each written, those around the 128 boundary read back)."""
+    abi = pt.abi
+
+    def locals_body(extra):
+        vs = [abi.Uint64() for _ in range(k)]
+        reads = [vs[i].get() for i in sorted(set([0, k // 2, k - 1] + [i for i in (125, 126, 127, 128, 129) if i < k]))]
+        return [v.set(pt.Int(i + 1)) for i, v in enumerate(vs)], pt.Add(*(reads + extra)) if len(reads + extra) > 1 else (reads + extra)[0]
+
+    if kind == "plain":
+        def body(params):
+            st, total = locals_body(list(params))
+            return pt.Seq(*st, total)
+        f = pt.Subroutine(pt.TealType.uint64, name="many_%d" % k)(_fn(nargs, body))
+        return pt.Seq(pt.Pop(f(*[pt.Int(7)] * nargs)), pt.Approve())
+    names = ["p%d" % i for i in range(nargs)]
+    if kind == "abi_void":
+        def body(params):
+            st, total = locals_body([p.get() for p in params])
+            return pt.Seq(*st, pt.Pop(total))
+        src = "def f(%s):\n    return body([%s])\n" % (", ".join(names), ", ".join(names))
+    else:
+        def body(params):
+            st, total = locals_body([p.get() for p in params[:-1]])
+            return pt.Seq(*st, params[-1].set(total))
+        src = "def f(%s*, output):\n    return body([%s])\n" % ("".join(x + ", " for x in names), ", ".join(names + ["output"]))
+    env = {"body": body}
+    exec(src, env)
+    f = env["f"]
+    ann = {x: abi.Uint64 for x in names}
+    if kind == "abi_out":
+        ann["output"] = abi.Uint64
+    f.__annotations__ = ann
+    f.__name__ = "many_%s_%d" % (kind, k)
+    w = pt.ABIReturnSubroutine(f)
+    args = []
+    pre = []
+    for _ in range(nargs):
+        x = abi.Uint64()
+        pre.append(x.set(pt.Int(3)))
+        args.append(x)
+    if kind == "abi_out":
+        o = abi.Uint64()
+        return pt.Seq(*pre, w(*args).store_into(o), pt.Pop(o.get()), pt.Approve())
+    return pt.Seq(*pre, w(*args), pt.Approve())
+
+
+# ------------------------------------------------------------------------------------------------
+# routine tails
+# ------------------------------------------------------------------------------------------------
+X = "x"
+TAIL_TEMPLATES = [
+    ("cond", [X, X]), ("cond", [X, X, X]), ("if", X), ("ifelse", X, X), ("ifelif", X, X, X),
+    ("cond", [("ifelse", X, X), X]), ("cond", [X, ("ifelse", X, X)]), ("ifelse", ("cond", [X, X]), X),
+    ("ifelse", X, ("cond", [X, X])), ("cond", [X, ("cond", [X, X])]), ("ifelse", ("ifelse", X, X), X),
+    ("cond", [X, X, ("if", X)]), ("ifelif", ("cond", [X, X]), X, X),
+]
+TAIL_WHERE = ["sub_none", "sub_none_prefix", "sub_value", "main"]
+
+
+def _slots(t):
+    if t == X:
+        return 1
+    if t[0] == "cond":
+        return sum(_slots(a) for a in t[1])
+    return sum(_slots(a) for a in t[1:])
+
+
+def tails_cases():
+    """[(template index, leave-pattern bitmask, where, followed-by-another-routine)]"""
+    out = []
+    for ti, t in enumerate(TAIL_TEMPLATES):
+        n = _slots(t)
+        for mask in range(1 << n):
+            for w in TAIL_WHERE:
+                for follow in (True, False):
+                    if w == "main" and not follow:
+                        continue
+                    out.append((ti, mask, w, follow))
+    return out
+
+
+def gen_tail_program(pt, ti, mask, where, follow, app):
+    """The routine under test ends in TAIL_TEMPLATES[ti]; leaf i leaves the routine iff bit i of mask is set."""
+    I = pt.Int
+    counter = [0]
+    v = pt.ScratchVar(pt.TealType.uint64)
+    in_sub = where != "main"
+    value_sub = where == "sub_value"
+
+    def leaf():
+        i = counter[0]
+        counter[0] += 1
+        if (mask >> i) & 1:
+            if not in_sub:
+                kinds = [lambda: pt.Return(I(1)), pt.Approve, pt.Reject, pt.Err]
+            elif value_sub:
+                kinds = [lambda: pt.Return(I(9)), pt.Reject, pt.Err, lambda: pt.Seq(pt.Pop(I(3)), pt.Return(I(8)))]
+            else:
+                kinds = [pt.Return, pt.Reject, pt.Approve, pt.Err, lambda: pt.Seq(pt.Pop(I(3)), pt.Return())]
+            return kinds[(i + ti + mask) % len(kinds)]()
+        return [lambda: pt.Pop(I(10 + i)), lambda: v.store(I(20 + i)), lambda: pt.Seq(pt.Pop(I(1)), v.store(I(2))), lambda: pt.Seq()][(i + mask) % 4]()
+
+    def cond_expr():
+        i = counter[0]
+        return pt.Txn.fee() == I(100 + i) if i % 3 else I(1)
+
+    def build(t):
+        if t == X:
+            return leaf()
+        if t[0] == "cond":
+            return pt.Cond(*[[cond_expr(), build(a)] for a in t[1]])
+        if t[0] == "if":
+            return pt.If(cond_expr()).Then(build(t[1]))
+        if t[0] == "ifelse":
+            c = cond_expr()
+            a = build(t[1])
+            return pt.If(c).Then(a).Else(build(t[2]))
+        c1 = cond_expr()
+        a = build(t[1])
+        c2 = pt.Txn.fee() > I(5)
+        b = build(t[2])
+        return pt.If(c1).Then(a).ElseIf(c2).Then(b).Else(build(t[3]))
+
+    tmpl = TAIL_TEMPLATES[ti]
+
+    @pt.Subroutine(pt.TealType.uint64, name="after")
+    def after(a):
+        return a + I(1)
+
+    if not in_sub:
+        tail = build(tmpl)
+        return pt.Seq(v.store(I(0)), pt.Pop(after(I(1))), tail)
+
+    def body(params):
+        tail = build(tmpl)
+        pre = [v.store(params[0])] if where != "sub_none" else []
+        if value_sub:
+            return pt.Seq(*pre, tail, v.load() + I(5))
+        return pt.Seq(*pre, tail) if pre else tail
+
+    rt = pt.TealType.uint64 if value_sub else pt.TealType.none
+    first = pt.Subroutine(rt, name="tail")(_fn(1, body))
+    call = pt.Pop(first(I(3))) if value_sub else first(I(3))
+    if follow:
+        # `tail` was defined after `after`?  ids decide the order of emission: define a second follower after it
+        @pt.Subroutine(pt.TealType.none, name="follower")
+        def follower():
+            return pt.Pop(I(77))
+        return pt.Seq(v.store(I(0)), call, follower(), pt.Pop(after(I(1))), pt.Approve())
+    return pt.Seq(v.store(I(0)), pt.Pop(after(I(1))), call, pt.Approve())
